@@ -90,8 +90,10 @@ def generate(seed, batch):
                 'plyt': 1.25e-4, 'm': rng.randint(2, 6), 'n': rng.randint(2, 6), 'flags': flags,
                 'Nxx': rng.choice([-1.0, -1.0, -100.0, 0.0, 1.0]), 'Nyy': rng.choice([0.0, -1.0, -50.0, 2.0]),
                 'Nxy': rng.choice([0.0, 0.0, 0.5, -3.0]),
-                'loadmult': 10 ** rng.uniform(0, 5),
+                'loadmult': 10 ** rng.choice([rng.uniform(0, 5), rng.uniform(-5, 0)]),
+                'Nxx_cte': rng.choice([None, None, -0.2, 0.3]), 'Nyy_cte': rng.choice([None, None, None, -0.1]),
             }
+            scen['model_scale'] = rng.choice([None, None, 10 ** rng.uniform(-4, -1), 10 ** rng.uniform(1, 3)])
             # a second analysis on the same object after its edge flags were re-defined
             scen['redefine_flags'] = ({f: float(rng.choice([0, 1])) for f in rng.sample(
                 ['u1tx', 'u2tx', 'v1tx', 'v2tx', 'w1tx', 'w1rx', 'w2tx', 'w2rx', 'u1ty', 'u2ty', 'v1ty', 'v2ty', 'w1ty', 'w1ry', 'w2ty', 'w2ry'],
@@ -133,7 +135,7 @@ def shrink_candidates(scen):
             c = copy.deepcopy(scen)
             del c['faults'][i]
             yield c
-    for key, val in (('scale_s', None), ('cross_path', False), ('redefine_flags', None), ('second_v0', False)):
+    for key, val in (('scale_s', None), ('cross_path', False), ('redefine_flags', None), ('second_v0', False), ('model_scale', None)):
         if scen.get(key) not in (val,):
             c = copy.deepcopy(scen)
             c[key] = val
@@ -216,6 +218,10 @@ def build_model_matrices(scen):
         p.Nxx = mo['Nxx'] * mo['loadmult']
         p.Nyy = mo['Nyy'] * mo['loadmult']
         p.Nxy = mo['Nxy'] * mo['loadmult']
+        if mo.get('Nxx_cte') is not None:
+            p.Nxx_cte = mo['Nxx_cte']
+        if mo.get('Nyy_cte') is not None:
+            p.Nyy_cte = mo['Nyy_cte']
         return p
     from compmech.conecyl import ConeCyl
     cc = ConeCyl()
@@ -332,7 +338,10 @@ def check_result(scen, Kd, Gd, active, vals, vecs, pos, k, sparse, ref, log, res
         if not (nv > 0) or not np.all(np.isfinite(v)):
             raise Violation('E1-eigenpair' + tag, {'why': 'zero or non-finite mode returned', 'index': i, 'lambda': float(lam)})
         r = np.linalg.norm(Kd.dot(v) + lam * Gd.dot(v))
-        bound = 1e-8 * (nK + abs(lam) * nG) * nv
+        # solver precision: 1e-8 relative backward error, relaxed when the multiplier is far from the fixed shift
+        # sigma=1 (Cayley transform resolution ~ eps*cond(K)/|mu|), never beyond 1e-4
+        relb = max(1e-8, min(1e-4, 2e-15 * (nK / ref['lmin']) * max(1.0, abs(lam)))) if sparse else 1e-8
+        bound = relb * (nK + abs(lam) * nG) * nv
         worst = max(worst, r / max(bound, 1e-300))
         if not (r <= bound):
             raise Violation('E1-eigenpair' + tag, {'why': '(K + lambda KG) v is not zero to solver precision',
@@ -412,6 +421,11 @@ def execute(scen):
                 Kd = csr_matrix(obj.k0).toarray()[3:, 3:]
                 Gd = csr_matrix(obj.kG0).toarray()[3:, 3:]
             active = np.where(np.abs(Kd).sum(axis=0) != 0)[0]
+            if np.abs(Kd - Kd.T).max() > 1e-12 * np.abs(Kd).max() or np.abs(Gd - Gd.T).max() > 1e-12 * max(np.abs(Gd).max(), 1e-300):
+                # the pair a package model hands to its own buckling analysis must be symmetric
+                raise Violation('E0-symmetric', {'why': 'stiffness or geometric matrix produced by a package model is not symmetric',
+                                                 'asym_K': float(np.abs(Kd - Kd.T).max()), 'asym_KG': float(np.abs(Gd - Gd.T).max()),
+                                                 'model': scen['model'].get('model', scen['model']['kind'])})
             if len(active) < 3 or not eig.is_pd(Kd[np.ix_(active, active)]):
                 bump(res['probes'], 'precondition_not_met(K not PD on active amplitudes)')
                 res['digest'] = log.digest()
@@ -488,6 +502,34 @@ def execute(scen):
                     ref_s = {'mu': mu * s, 'lam': lam / s, 'lam_pos': lam_pos / s, 'subcritical': True, 'lmin': ref['lmin']}
                     check_result(scen, Kd, Gd * s, active, vals3, vecs3, pos, k, sparse, ref_s, log, res, tag='(scaled-load)')
                     bump(res['probes'], 'E5_checked')
+        # ---- E5 through the model: a panel whose reference load is s times larger has multipliers s times smaller
+        ms = scen.get('model_scale')
+        if ms and outcome == 'returned' and sub and scen['src'] == 'model' and scen['model']['kind'] == 'panel' \
+                and lam_pos.min() / ms > 1.0:
+            seam.faults = {}
+            scen3 = dict(scen)
+            scen3['model'] = dict(scen['model'])
+            scen3['model']['loadmult'] = scen['model']['loadmult'] * ms
+            p3 = build_model_matrices(scen3)
+            try:
+                if scen['impl'] == 'panel':
+                    p3.num_eigvalues = k
+                    p3.lb(tol=0, sparse_solver=sparse, silent=True)
+                    v3 = np.asarray(p3.eigvals).real
+                else:
+                    from compmech.analysis import lb as _lb
+                    v3 = np.asarray(_lb(p3.calc_k0(silent=True), p3.calc_kG0(silent=True), tol=0, sparse_solver=sparse, silent=True,
+                                        num_eigvalues=k)[0]).real
+            except Exception as e:
+                bump(res['exceptions'], 'model_scaled_' + type(e).__name__)
+            else:
+                kk = min(k, len(lam_pos), len(v3))
+                from .eig import compare_sorted_with_multiplicity
+                st3, info3 = compare_sorted_with_multiplicity(v3[:kk] * ms, lam_pos, lambda x: max(1e-6, 10 * rtol(-1.0 / x)))
+                if st3 == 'wrong' and not any(rtol.ill(-1.0 / x) for x in lam_pos[:kk]):
+                    raise Violation('E5-scaling', dict(info3, s=ms, why='a panel with the reference load scaled by s does not have multipliers divided by s',
+                                                       scaled_times_s=(v3[:4] * ms).tolist(), base=lam_pos[:4].tolist()))
+                bump(res['probes'], 'E5_model_checked')
         # ---- re-definition: the same Panel object analysed again after its edge flags changed must give the
         #      eigenpairs of the new matrices (nothing cached from the first analysis may survive)
         rf = scen.get('redefine_flags')
